@@ -297,6 +297,13 @@ func giantFaultCase(c *mon.Ctx, idx int64, r *rand.Rand) {
 	for k := 0; k < 6; k++ {
 		small = append(small, gen.NewPESUnit(r, 0x101, 20+k, gen.PESOpts{DataLen: 50 + r.IntN(900), WithPTS: k%2 == 0}))
 	}
+	if idx%2 == 0 {
+		// constant filler: packets 16 apart inside the giant unit are equal byte for byte, counter included
+		hl := len(us[2].Payload) - len(us[2].PES.Data)
+		for q := 8; q < len(us[2].PES.Data); q++ {
+			us[2].PES.Data[q], us[2].Payload[hl+q] = 0x55, 0x55
+		}
+	}
 	counts := map[uint16]int{}
 	for _, u := range append(append([]*gen.Unit{}, us...), small...) {
 		u.PlanChunks(gen.RandomChunks(r, len(u.Payload), 0, 0, true))
@@ -335,6 +342,16 @@ func giantFaultCase(c *mon.Ctx, idx int64, r *rand.Rand) {
 		plan(func(f []fkind) { f[at(us[2], j)] = fDel })
 		plan(func(f []fkind) { f[at(us[2], j)] = fDup })
 		plan(func(f []fkind) { f[at(us[5], j)] = fDup; f[at(us[2], 0)] = fDup })
+	}
+	// a duplicate, then 15 packets lost: the survivor carries the counter of the duplicated packet (and, in constant filler, its
+	// bytes): a third packet with one counter is no duplicate (ISO 13818-1 2.4.3.3: two, and only two), the counter reveals the gap
+	for _, j := range []int{100, 200 + r.IntN(50)} {
+		plan(func(f []fkind) {
+			f[at(us[2], j)] = fDup
+			for q := 1; q <= 15; q++ {
+				f[at(us[2], j+q)] = fDel
+			}
+		})
 	}
 	plan(func(f []fkind) { f[at(us[2], 0)] = fTEI })
 	plan(func(f []fkind) { f[at(us[2], 0)] = fAFOnly; whole(f, us[1]) })
